@@ -130,6 +130,29 @@ func loadProgram(repo string, tags string) (*Program, error) {
 			P.Funcs[k] = f
 		}
 	}
+	// methods of every named type of the repository (AllFunctions only returns reachable ones)
+	for path, sp := range P.SSAPkg {
+		if !strings.HasPrefix(path, modPath) {
+			continue
+		}
+		for _, m := range sp.Members {
+			tn, ok := m.(*ssa.Type)
+			if !ok {
+				continue
+			}
+			for _, t := range []types.Type{tn.Type(), types.NewPointer(tn.Type())} {
+				ms := prog.MethodSets.MethodSet(t)
+				for i := 0; i < ms.Len(); i++ {
+					if f := prog.MethodValue(ms.At(i)); f != nil && f.Synthetic == "" {
+						k := funcKey(f)
+						if _, dup := P.Funcs[k]; !dup {
+							P.Funcs[k] = f
+						}
+					}
+				}
+			}
+		}
+	}
 	for _, p := range pkgs {
 		for _, f := range p.GoFiles {
 			b, err := os.ReadFile(f)
